@@ -521,6 +521,15 @@ def lib_property(prop, tier, seed):
         elif r["status"] != "unsat":
             rep.undecided.append({"obligation": r["name"], "reason": r.get("reason") or "unknown"})
     rep.samples = [{"obligation": r["name"], "goal": r["goal"], "verdict": r["status"]} for r in recs[:4]]
+    # name resolution itself: find_command_class consults the program's own table and nothing else
+    try:
+        from . import loadprops, loadrun
+
+        frecs, ffns = loadprops.verify_find_command_class(Repo(root))
+        rep.functions += ffns
+        loadrun.add_records(rep, [loadrun._strip(r) for r in frecs], None)
+    except Exception as e:
+        rep.errors.append("find_command_class: %s: %s" % (type(e).__name__, e))
     t0 = time.time()
     cases = libprops.cases(tier, seed, focus=bool(rep.undecided))
     outs = libprops.run_real(cases, root)
@@ -615,7 +624,8 @@ def parser_property(prop, tier, seed):
             rep.errors.append("%s: %s: %s %s" % (f.__name__, type(e).__name__, e, traceback.format_exc()[-600:]))
     for r in recs:
         cl = r.get("clause") or r.get("kind")
-        if cl not in want:
+        structural = r["status"] != "unsat" and (cl in ("cover", "supported") or r["name"].endswith("/supported"))
+        if cl not in want and not structural:
             continue
         rep.add_vc(r["name"], r["status"], r.get("function"), cl, r.get("backend"), r.get("time_s", 0),
                    detail={"goal": r.get("goal"), "witness": r.get("witness"), "reason": r.get("reason"), "trail": r.get("trail")})
